@@ -12,12 +12,15 @@ import (
 	"strconv"
 	"strings"
 
+	"github.com/cosmos/cosmos-sdk/store/prefix"
 	sdk "github.com/cosmos/cosmos-sdk/types"
 	authtypes "github.com/cosmos/cosmos-sdk/x/auth/types"
-	"github.com/cosmos/cosmos-sdk/store/prefix"
 
 	mhub2 "github.com/MinterTeam/mhub2/module/x/mhub2"
 	"github.com/MinterTeam/mhub2/module/x/mhub2/types"
+	"github.com/MinterTeam/mhub2/module/x/oracle"
+	oraclekeeper "github.com/MinterTeam/mhub2/module/x/oracle/keeper"
+	oracletypes "github.com/MinterTeam/mhub2/module/x/oracle/types"
 )
 
 // ---------------------------------------------------------------- address helpers
@@ -399,11 +402,79 @@ func (e *Env) Exec(line string) string {
 			}
 			return fmt.Sprintf("lastnonce %d", r.EventNonce)
 		})
+	case "oprice", "oholders":
+		epoch := u(w[2])
+		return e.runTx(func(ctx sdk.Context) (string, error) {
+			srv := oraclekeeper.NewMsgServerImpl(e.ok)
+			if w[0] == "oprice" {
+				ps := &oracletypes.Prices{}
+				if w[3] != "-" {
+					for _, it := range strings.Split(w[3], ",") {
+						kv := strings.SplitN(it, "=", 2)
+						v, _ := new(big.Int).SetString(kv[1], 10)
+						ps.List = append(ps.List, &oracletypes.Price{Name: kv[0], Value: sdk.NewDecFromBigIntWithPrec(v, 18)})
+					}
+				}
+				msg := &oracletypes.MsgPriceClaim{Epoch: epoch, Prices: ps, Orchestrator: accStr(w[1])}
+				if err := msg.ValidateBasic(); err != nil {
+					return "", err
+				}
+				_, err := srv.PriceClaim(sdk.WrapSDKContext(ctx), msg)
+				return "ok", err
+			}
+			hs := &oracletypes.Holders{}
+			if w[3] != "-" {
+				for _, it := range strings.Split(w[3], ",") {
+					kv := strings.SplitN(it, "=", 2)
+					v, _ := parseInt(kv[1])
+					hs.List = append(hs.List, &oracletypes.Holder{Address: kv[0], Value: v})
+				}
+			}
+			msg := &oracletypes.MsgHoldersClaim{Epoch: epoch, Holders: hs, Orchestrator: accStr(w[1])}
+			if err := msg.ValidateBasic(); err != nil {
+				return "", err
+			}
+			_, err := srv.HoldersClaim(sdk.WrapSDKContext(ctx), msg)
+			return "ok", err
+		})
+	case "oend":
+		return e.runTx(func(ctx sdk.Context) (string, error) { oracle.EndBlocker(ctx, e.ok); return "ok", nil })
 	case "dump":
 		e.Init()
+		if len(w) == 2 && w[1] == "oracle" {
+			return e.DumpOracle()
+		}
 		return e.Dump(w[1:])
 	}
 	return "bad-op"
+}
+
+func (e *Env) DumpOracle() string {
+	ctx := e.ctx
+	var ps, hs []string
+	if p := e.ok.GetPrices(ctx); p != nil {
+		for _, it := range p.List {
+			ps = append(ps, it.Name+"="+it.Value.BigInt().String())
+		}
+	}
+	if h := e.ok.GetHolders(ctx); h != nil {
+		for _, it := range h.List {
+			hs = append(hs, it.Address+"="+it.Value.String())
+		}
+	}
+	ep := e.ok.GetCurrentEpoch(ctx)
+	votes := func(claim oracletypes.Claim) string {
+		att := e.ok.GetAttestation(ctx, ep, claim)
+		var l []string
+		if att != nil {
+			for _, v := range att.Votes {
+				l = append(l, e.toHexAcc(v))
+			}
+		}
+		return strings.Join(l, ",")
+	}
+	return fmt.Sprintf("oracle epoch=%d prices=%s holders=%s pvotes=%s hvotes=%s", ep, strings.Join(ps, ","), strings.Join(hs, ","),
+		votes(&oracletypes.MsgPriceClaim{Epoch: ep}), votes(&oracletypes.MsgHoldersClaim{Epoch: ep}))
 }
 
 func (e *Env) query(f func(ctx context.Context) string) (res string) {
@@ -486,10 +557,10 @@ func (e *Env) Sets(ctx sdk.Context, chain string) []*types.SignerSetTx {
 }
 
 type voteRec struct {
-	nonce    uint64
-	hash     []byte
-	rec      types.ExternalEventVoteRecord
-	event    types.ExternalEvent
+	nonce uint64
+	hash  []byte
+	rec   types.ExternalEventVoteRecord
+	event types.ExternalEvent
 }
 
 func (e *Env) VoteRecords(ctx sdk.Context, chain string) []voteRec {
